@@ -219,6 +219,11 @@ def grace_part(ck, prog, pr, seed):
         k = callee.rsplit('::', 1)[1]
         x, y = a.f[0], b.f[0]
         return {'gt': x > y, 'ge': x >= y, 'lt': x < y, 'le': x <= y}[k]
+    def dur_get(ex, st, callee, args, fn):
+        a = ex.deref(st, args[0]) if isinstance(args[0], Ref) else args[0]
+        k = callee.rsplit('::', 1)[1]
+        ns = a.f[0]
+        return {'as_nanos': ns, 'as_micros': ns / 1000, 'as_millis': ns / 10 ** 6, 'as_secs': ns / NS, 'subsec_nanos': ns % NS}[k]
     reply_ok = z3.Bool('uds_reply_ok'); body = z3.Int('reply_body_kind')
     rb = prog.enums.get('ReplyBody')
 
@@ -229,7 +234,8 @@ def grace_part(ck, prog, pr, seed):
         rep = Struct([Opaque('r0'), Opaque('r1'), Opaque('r2'), Enum(body, pl)])
         return Enum(z3.If(reply_ok, z3.IntVal(0), z3.IntVal(1)), {'Ok': Struct([rep]), 'Err': Struct([Opaque('io::Error')])})
     env = [(r'(^|::)Instant::now$', now), (r'(^|::)Instant::checked_sub$', checked_sub), (r'(^|::)Instant::elapsed$', elapsed), (r'(^|::)Duration::from_secs$', from_secs),
-           (r'^<Duration as PartialOrd>::(gt|ge|lt|le)$', dur_cmp), (r'(^|::)blocking_query_uds$', query)]
+           (r'^<Duration as PartialOrd>::(gt|ge|lt|le)$', dur_cmp), (r'(^|::)blocking_query_uds$', query),
+           (r'(^|::)Duration::(as_nanos|as_micros|as_millis|as_secs|subsec_nanos)$', dur_get)]
     ex = Exec(prog, env=env, opaque_calls=[r'^<ClientOptions as Default>::default$'])
     ex.const_hooks = time_consts()
     mono = [t[0] >= 0] + [t[i + 1] >= t[i] for i in range(len(t) - 1)]
@@ -239,6 +245,28 @@ def grace_part(ck, prog, pr, seed):
     # (g1) right after default(): never within the grace period (uptime >= 5 s assumed; below that default() panics: observation O1)
     outs = ex.run(f_default, [], State())
     pr2 = Prover(seed)
+    rpg = common.Replay('debug')
+
+    def confirm_default(m):
+        out = rpg.ask('grace -1 0')
+        if out.startswith('ok') and 'within=true' in out:
+            ck.violation('grace-after-start', 'a freshly created ClockErrorBoundPoller (no answer ever received) reports is_within_grace_period() = true: a silent chronyd right after daemon start yields a FreeRunning-class outcome',
+                         {'cmd': 'grace -1', 'native': out})
+            return 'grace-after-start'
+        return None
+
+    def confirm_elapsed(L_, t0_):
+        def confirm(m):
+            el = mval(m, t0_) - mval(m, L_)
+            if el < 0 or abs(el - GRACE_NS) < 50_000_000:
+                return None
+            out = rpg.ask('grace %d 0' % el)
+            within = 'within=true' in out
+            if out.startswith('ok') and within != (el < GRACE_NS):
+                ck.violation('grace-period', 'real ClockErrorBoundPoller::is_within_grace_period() %.3f s after the last good answer returns %s' % (el / 1e9, within), {'cmd': 'grace %d' % el, 'native': out})
+                return 'grace-period'
+            return None
+        return confirm
     for o in outs:
         if o.kind != 'return':
             continue
@@ -246,7 +274,8 @@ def grace_part(ck, prog, pr, seed):
         outs2 = ex.run(f_grace, [Ref(0, 'p')], st)
         for o2 in outs2:
             pr2.add(ex.side)
-            pr2.prove('right after daemon start (no answer ever received) the poller is outside the grace period at every later instant', z3.And(o2.state.pcond(), *mono, t[0] >= GRACE_NS), z3.Not(o2.value))
+            pr2.prove_cegar('right after daemon start (no answer ever received) the poller is outside the grace period at every later instant', z3.And(o2.state.pcond(), *mono, t[0] >= GRACE_NS), z3.Not(o2.value),
+                            confirm_default, lambda m: [])
     # O1: default() panics when the monotonic clock reads less than 5 s
     o1 = [ob for ob in ex.obligations if 'unwrap' in ob.desc or 'None' in ob.desc]
     ck.cov['observation_O1'] = 'ClockErrorBoundPoller::default() panics (Option::unwrap on None) when Instant::now() is less than 5 s after the Instant epoch: %d such obligation(s); assumed away (uptime >= 5 s)' % len(o1)
@@ -256,7 +285,8 @@ def grace_part(ck, prog, pr, seed):
     st = State(); st.mem[(0, 'p')] = Struct([Struct([L])])
     for o2 in ex2.run(f_grace, [Ref(0, 'p')], st):
         pr2.add(ex2.side)
-        pr2.prove('is_within_grace_period() <=> less than 5 s since the last good answer', z3.And(o2.state.pcond(), *mono, L >= 0, L <= t[0]), o2.value == (t[0] - L < GRACE_NS))
+        pr2.prove_cegar('is_within_grace_period() <=> less than 5 s since the last good answer', z3.And(o2.state.pcond(), *mono, L >= 0, L <= t[0]), o2.value == (t[0] - L < GRACE_NS),
+                        confirm_elapsed(L, t[0]), lambda m: [], hints=[[t[0] - L >= GRACE_NS + 10 ** 8, t[0] - L < 100 * NS], [t[0] - L <= GRACE_NS - 10 ** 8]])
     # (g3) get_tracking records the instant of a good answer, and only of a good answer
     ex3 = Exec(prog, env=env, opaque_calls=[r'^<ClientOptions as Default>::default$']); ex3.const_hooks = time_consts()
     st = State(); st.mem[(0, 'p')] = Struct([Struct([L])])
@@ -272,10 +302,8 @@ def grace_part(ck, prog, pr, seed):
             pr2.prove('get_tracking: a tracking reply is returned and its instant recorded; anything else returns None and leaves the instant unchanged',
                       z3.And(o3.state.pcond(), *mono, L >= 0, L <= t[0]),
                       z3.If(good, z3.And(o3.value.disc() == 1, p_after == (nows[-1].ret if nows else L)), z3.And(o3.value.disc() == 0, p_after == L)))
+    rpg.close()
     ck.absorb(pr2, 'grace: ')
-    if pr2.failed:
-        for name, m in pr2.failed:
-            confirm_grace(ck, name, m, L, t)
 
 
 def confirm_grace(ck, name, m, L, t):
@@ -309,6 +337,25 @@ def check_c12(tier, seed):
     pr = Prover(seed); pr.add(pm.ex.side)
     M = pm.msg
     n = 0
+    rpo = common.Replay('debug')
+
+    def confirm_order(m):
+        """one iteration of the real poller loop under a virtual monotonic clock that advances by 1 s on every read"""
+        some, grace, cfg, phc_ok = [bool(mval(m, x)) for x in (pm.tracking_some, pm.grace, pm.phc_cfg, pm.phc_ok)]
+        cfg_id, t_id, phc_val = mval(m, pm.cfg_refid), mval(m, pm.t_refid), mval(m, pm.phc_val)
+        out = rpo.ask('poller %d %d %d %d %d %s' % (some, grace, cfg, cfg_id, t_id, ('ok:%d' % phc_val) if phc_ok else 'missing'))
+        f = dict(x.split('=', 1) for x in out.split()[1:] if '=' in x) if out.startswith('ok') else {}
+        bad = []
+        if some and f.get('clock_reads_before_query', '0').split(',')[0] in ('', '0'):
+            bad.append('chronyd was queried before the monotonic clock was read')
+        if f and not f.get('clock_ids', '').startswith('6'):
+            bad.append('the first clock read is clock id %s, not CLOCK_MONOTONIC_COARSE (6)' % f.get('clock_ids'))
+        if 'ClockErrorBoundData' in f.get('msgs', '') and 'asof=123.456' not in f.get('msgs', ''):
+            bad.append('the as-of instant of the message (%s) is not the reading taken before the query (123.000000456; the virtual clock advances 1 s per read)' % f.get('msgs'))
+        if bad:
+            ck.violation('poller-read-order', 'real poller loop (chronyd answered=%s, PHC configured=%s, ids %d/%d, PHC read ok=%s): %s' % (some, cfg, cfg_id, t_id, phc_ok, '; '.join(bad)), {'cmd': 'poller', 'native': out})
+            return bad[0]
+        return None
     for g in S.iteration:
         for a in g.alts:
             n += 1
@@ -317,17 +364,18 @@ def check_c12(tier, seed):
             if 'get_tracking' not in kinds:
                 continue
             ok_order = 'clock_gettime' in kinds and kinds.index('clock_gettime') < kinds.index('get_tracking') and kinds.count('clock_gettime') == 1
-            pr.prove(label + ': the monotonic clock is read before chronyd is queried', a.guard, z3.BoolVal(ok_order))
+            pr.prove_cegar(label + ': the monotonic clock is read once, before chronyd is queried', a.guard, z3.BoolVal(ok_order), confirm_order, lambda m: [])
             clk = [e for e in g.events if e.kind == 'clock_gettime']
             if clk:
                 cid = z3.simplify(clk[0].args[0])
-                pr.prove(label + ': the clock read is CLOCK_MONOTONIC_COARSE (id 6), as PROTOCOL.md says', a.guard, z3.BoolVal(z3.is_int_value(cid) and cid.as_long() == 6), need_reach=False)
+                pr.prove_cegar(label + ': the clock read is CLOCK_MONOTONIC_COARSE (id 6), as PROTOCOL.md says', a.guard, z3.BoolVal(z3.is_int_value(cid) and cid.as_long() == 6), confirm_order, lambda m: [], need_reach=False)
             for e in g.events:
                 if e.kind == 'send' and isinstance(e.args[1], Enum) and 'ClockErrorBoundData' in e.args[1].p:
                     tup = e.args[1].p['ClockErrorBoundData'].f[0]
                     ts = tup.f[2]
-                    pr.prove(label + ': the as-of instant attached to the report is that earlier clock reading', z3.And(a.guard, e.args[1].disc() == M['ClockErrorBoundData']),
-                             z3.And(ts.f[0] == pm.as_s, ts.f[1] == pm.as_n))
+                    pr.prove_cegar(label + ': the as-of instant attached to the report is that earlier clock reading', z3.And(a.guard, e.args[1].disc() == M['ClockErrorBoundData']),
+                                   z3.And(ts.f[0] == pm.as_s, ts.f[1] == pm.as_n), confirm_order, lambda m: [])
+    rpo.close()
     ck.absorb(pr, 'daemon: ')
     # client half: ClockErrorBound::now() reads REALTIME first, MONOTONIC second, and uses them in these roles
     from .client_now import load_shm_program, NowModel, ts_ns
@@ -348,7 +396,7 @@ def check_c12(tier, seed):
             # data flow: the interval is centred on the FIRST reading; its width depends on the SECOND reading only through the age
             pr2.prove('client path %d: the interval is centred on the first (realtime) reading' % i, o.state.pcond(), e_ns + l_ns == 2 * n_['real'])
     ck.absorb(pr2, 'client: ')
-    if pr.failed or pr2.failed:
+    if pr2.failed:
         # order violations are properties of the code's structure: replay natively where possible (client side)
         rp = common.Replay('debug')
         out = rp.ask('now 0 0 10 0 10000 1000 1 2 0 2 0')
@@ -358,22 +406,6 @@ def check_c12(tier, seed):
             ck.violation('client-read-order', 'ClockErrorBound::now() read the clocks in the order %s (expected CLOCK_REALTIME=0 then CLOCK_MONOTONIC_COARSE=6)' % reads, {'cmd': 'now', 'native': out})
         elif pr2.failed:
             ck.inconclusive.append('client-side clause failed in the encoding but the native read order is ' + reads)
-        if pr.failed:
-            rp = common.Replay('debug')
-            out = rp.ask('poller 1 0 0 0 0 missing')
-            rp.close()
-            f = dict(x.split('=', 1) for x in out.split()[1:] if '=' in x) if out.startswith('ok') else {}
-            bad = []
-            if f.get('clock_reads_before_query', '0').split(',')[0] in ('', '0'):
-                bad.append('chronyd was queried before the monotonic clock was read')
-            if not f.get('clock_ids', '').startswith('6'):
-                bad.append('the first clock read is clock id %s, not CLOCK_MONOTONIC_COARSE (6)' % f.get('clock_ids'))
-            if 'asof=123.456' not in f.get('msgs', ''):
-                bad.append('the as-of instant of the message (%s) is not the clock reading taken before the query (123.456)' % f.get('msgs'))
-            if bad:
-                ck.violation('poller-read-order', 'real poller loop: ' + '; '.join(bad), {'cmd': 'poller 1 0 0 0 0 missing', 'native': out})
-            else:
-                ck.inconclusive.append('poller-side clause failed in the encoding; native run looks right: ' + out)
     fin(ck, pm, mir_wall)
     ck.cov['bounds'] = {'poller': 'all paths of one loop iteration', 'client': 'all return paths of ClockErrorBound::now() over the C05 domain', 'delays': 'the order is structural: it holds for every delay between the steps'}
     return ck.finish()
